@@ -246,9 +246,13 @@ impl Case {
 fn parse_range(s: &str) -> Option<Iv> {
     let s = s.trim();
     if let Some((l, h)) = s.split_once("..") {
-        let h = h.strip_prefix('=').unwrap_or(h);
+        // `a..=b` includes b, `a..b` does not (rasn reads the string as a Rust range)
+        let (h, inclusive) = match h.strip_prefix('=') {
+            Some(r) => (r, true),
+            None => (h, false),
+        };
         let lo = if l.is_empty() { None } else { Some(l.parse::<i128>().ok()?) };
-        let hi = if h.is_empty() { None } else { Some(h.parse::<i128>().ok()?) };
+        let hi = if h.is_empty() { None } else { Some(h.parse::<i128>().ok()? - if inclusive { 0 } else { 1 }) };
         Some(Iv::new(lo, hi))
     } else {
         let v = s.parse::<i128>().ok()?;
